@@ -8,6 +8,7 @@ on that stroke; and only hearing that bell on that stroke takes it out.
 -/
 import Wheatley.Model.World
 import Wheatley.Lemmas.SoloWorld
+import Wheatley.Lemmas.Cli
 namespace Wheatley.C09
 
 variable {K : Type} [Num K]
@@ -270,5 +271,13 @@ theorem setting_keeps_waiting (wt : K → K) (ct : K) (w : World K) (key : Strin
       · rfl
 
 end Settings
+
+/-! ### The command line (`Model/Cli.lean`: `console_main`) -/
+
+/-- The waiting wrapper is used unless `-k` was given; the deprecated `--wait` changes nothing. -/
+theorem cli_waits_unless_keep_going (c : Parse.Chars) (os : List Cli.Opt) (u : Option (List Char × List Char))
+    (cfg : Cli.Cfg) (h : Cli.consoleMain c os u = .built cfg) :
+    cfg.useWait = !decide (Cli.Opt.keepGoing ∈ os) :=
+  (Cli.main_built c os u cfg h).2.2.2.1
 
 end Wheatley.C09
